@@ -42,6 +42,9 @@ def models():
     return {
         "StandardNormal[2]": (lambda: D.StandardNormal([2]), (2,), "optional", False),
         "StandardNormal[2,2]": (lambda: D.StandardNormal([2, 2]), (2, 2), "optional", False),
+        "StandardNormal[]": (lambda: D.StandardNormal([]), (), "optional", False),
+        "StandardNormal[1]": (lambda: D.StandardNormal([1]), (1,), "optional", False),
+        "Flow(affine|StandardNormal[])": (lambda: FL.base.Flow(TR.PointwiseAffineTransform(shift=0.5, scale=2.0), D.StandardNormal([])), (), "optional", False),
         "DiagonalNormal[2]": (lambda: D.DiagonalNormal([2]), (2,), "logprob_only", False),
         "ConditionalDiagonalNormal[2]/marker": (lambda: D.ConditionalDiagonalNormal([2]), (2,), "required", True),
         "ConditionalDiagonalNormal[1]/marker": (lambda: D.ConditionalDiagonalNormal([1]), (1,), "required", True),
